@@ -57,7 +57,7 @@ class _Walker:
                 if n.func.attr in ("_send_user_message", "_send_message"):
                     self.sends.append(locked)
                 if n.func.attr == "_unlink_channel":
-                    self.unlinks.append(ast.unparse(n.args[0]) if len(n.args) == 1 else "?")
+                    self.unlinks.append((ast.unparse(n.args[0]) if len(n.args) == 1 else "?", self.fname))
             if isinstance(n, ast.Call) and isinstance(n.func, ast.Attribute):
                 if n.func.attr in self.targets and _is_self_attr(n.func, n.func.attr):
                     self.sites.append({"caller": self.fname, "target": n.func.attr, "lex": locked, "line": n.lineno})
@@ -243,7 +243,7 @@ def blocking_sends_under_lock(channel_cls):
         if any(lex or maybe[name] for lex in w.sends):
             bad.append(name)
         unlink_args += w.unlinks
-    return bad, unlink_args
+    return bad, [a for a, _ in unlink_args], [f for _, f in unlink_args]
 
 
 def addressing_counts(channel_cls):
@@ -303,10 +303,12 @@ def lean_tables(sites, notifies, accesses=None, addr=None, sends=None):
                 "def ownIdInMessages : Nat := %d" % addr[0],
                 "def remoteIdInMessages : Nat := %d" % addr[1], ""]
     if sends is not None:
-        bad, unlink_args = sends
+        bad, unlink_args, unlink_callers = sends
         out += ["/-- methods that call transport._send_user_message / _send_message while (possibly) holding self.lock -/",
                 "def sendsUnderLock : List String := [%s]" % ", ".join('"%s"' % x for x in bad), "",
                 "/-- the argument of every transport._unlink_channel(…) call in class Channel -/",
-                "def unlinkArgs : List String := [%s]" % ", ".join('"%s"' % x for x in unlink_args), ""]
+                "def unlinkArgs : List String := [%s]" % ", ".join('"%s"' % x for x in unlink_args), "",
+                "/-- … and the method of class Channel each of those calls sits in -/",
+                "def unlinkCallers : List String := [%s]" % ", ".join('"%s"' % x for x in unlink_callers), ""]
     out += ["end PV.Generated.ChanLock", ""]
     return "\n".join(out)
